@@ -70,6 +70,18 @@ def helper_key(argv0, cwd):
     return h.hexdigest()[:24]
 
 
+def copy_executable(src, dst, mode):
+    """Copy a file that is going to be executed.  The copy is made by a child process (`cp`), never by this
+    multi-threaded process itself: a descriptor open for writing here is inherited by whatever another thread forks at
+    that moment and stays open in that child until it execs - and while any process holds a file open for writing,
+    executing it fails with ETXTBSY ("Text file busy").  Under machine load that window is long enough to be met (it was:
+    a store history on a memory file system, where the hard link to the helper falls back to a copy)."""
+    p = subprocess.run(["cp", "--", src, dst], stdout=subprocess.DEVNULL, stderr=subprocess.PIPE)
+    if p.returncode != 0:
+        raise vlib.ToolError("cp %s %s failed: %s" % (src, dst, p.stderr.decode("utf-8", "replace")[-200:]))
+    os.chmod(dst, mode)
+
+
 class Fixture:
     def __init__(self, bins, targets, sequences=None, max_retained_runs=None, extra_cfg=None, gitignore=None, lock_host=None,
                  via=None, ignore_via=None, sepgit=None, root_dir=None):
@@ -216,16 +228,14 @@ class Fixture:
         if os.path.lexists(path):
             os.unlink(path)
         if kind == "noexec":
-            shutil.copyfile(self.bins["vhelper"], path)
-            os.chmod(path, 0o644)
+            copy_executable(self.bins["vhelper"], path, 0o644)
             return None
         try:
             if copy:
                 raise OSError("copy requested")     # a file of its own (its mode may be changed without touching the helper binary)
             os.link(self.bins["vhelper"], path)
         except OSError:
-            shutil.copyfile(self.bins["vhelper"], path)
-            os.chmod(path, 0o755)
+            copy_executable(self.bins["vhelper"], path, 0o755)
         # the helper identifies itself by (argv[0], cwd): argv[0] is built by monorail from the work path as typed, the
         # cwd is what the kernel reports (physical)
         key = helper_key(os.path.join(self.wp, os.path.relpath(path, self.repo)), tdir)
